@@ -22,6 +22,7 @@ import os
 import random
 import signal
 import subprocess
+import threading
 
 import kit
 
@@ -208,20 +209,36 @@ def judge_seq(b, r):
     kinds = collections.Counter(i["k"] for i in r["issues"])
     detail = "; ".join(i["d"] for i in r["issues"][:4])
     script = " ".join("%s%s%s" % (e["a"], e["c"] or "", ("(" + e["x"] + ")") if e["x"] else "") for e in b["beh"]
-                      if e["a"] in ("connect", "send", "sendbad", "recv", "drop", "exit", "eof", "refused"))
+                      if e["a"] in ("connect", "send", "sendbad", "recv", "drop", "exit", "eof", "refused", "pause", "acceptfault"))
     bad = r.get("bad") or []
     badtxt = ""
     if bad:
         badtxt = " malformed unit(s): " + ", ".join("%s type=%d declared=%d carried=%d" % (x["cls"], x["type"], x["declared"], x["carried"]) for x in bad)
     bl = r.get("blocked")
     if bl:
-        # a hang of the real code: the statement says a child that disappears does not prevent a later child from
-        # completing the hand-over, so this is a violation, not an infrastructure problem
-        out.append(("handover/later-child-blocked-after-drop",
-                    "child %d (%s) sent %s after child(ren) %s had hung up and got no %s within %s; the old process was alive and "
-                    "had performed %s so far | script: %s%s" % (
-                        bl["child"], bl["where"], bl["step"], bl["dropped"], "Instance call" if bl["waited"] == "step" else "reply",
-                        bl["deadline"], bl["performed"], script, badtxt)))
+        # a hang / a lost request of the real code: the statement says every requested step is performed and
+        # acknowledged and a later child completes, so this is a violation, not an infrastructure problem
+        got_no = "Instance call" if bl["waited"] == "step" else bl["waited"]
+        if bl["waited"].startswith("connection"):
+            got_no = "reply: the write failed, the " + bl["waited"]
+        cause = bl.get("cause", "drop")
+        if cause == "pause":
+            out.append(("handover/request-after-pause-not-answered",
+                        "child %d stayed silent for %s on its open connection (the real child sends terminate minutes after drain), then "
+                        "sent %s and got no %s within %s; the old process was alive and had performed %s so far | script: %s%s" % (
+                            bl["child"], bl.get("pause"), bl["step"], got_no, bl["deadline"], bl["performed"], script, badtxt)))
+        elif cause == "accept-fault":
+            out.append(("handover/no-answer-after-transient-accept-failure",
+                        "accept on the control socket failed once (no file descriptor left in the old process while a child was connecting, "
+                        "released 60 ms later); child %d (%s) then sent %s and got no %s within %s; the old process was alive and had "
+                        "performed %s so far | script: %s%s" % (
+                            bl["child"], bl["where"], bl["step"], got_no, bl["deadline"], bl["performed"], script, badtxt)))
+        else:
+            out.append(("handover/later-child-blocked-after-drop",
+                        "child %d (%s) sent %s after child(ren) %s had hung up and got no %s within %s; the old process was alive and "
+                        "had performed %s so far | script: %s%s" % (
+                            bl["child"], bl["where"], bl["step"], bl["dropped"], got_no,
+                            bl["deadline"], bl["performed"], script, badtxt)))
         return out
     if r["parentDied"]:
         sig = "seq/parent-died-on-malformed-frame" if bad else "seq/parent-died"
@@ -267,19 +284,55 @@ def judge_seq(b, r):
     return out
 
 
-def run_sequences(ctx, behs, pool, mode, label):
-    bfile = os.path.join(ctx.work, "behaviours-%s.ndjson" % label)
+def seq_files(ctx, label):
+    return (os.path.join(ctx.work, "behaviours-%s.ndjson" % label), os.path.join(ctx.work, "seq-%s.ndjson" % label),
+            os.path.join(ctx.work, "seqtrace-%s.ndjson" % label))
+
+
+def seq_args(ctx, behs, pool, mode, label, extra=()):
+    bfile, rfile, tfile = seq_files(ctx, label)
     kit.write_ndjson(bfile, behs)
-    pfile = os.path.join(ctx.work, "badpool.ndjson")
+    pfile = os.path.join(ctx.work, "badpool-%s.ndjson" % label)
     kit.write_ndjson(pfile, pool)
-    rfile = os.path.join(ctx.work, "seq-%s.ndjson" % label)
-    tfile = os.path.join(ctx.work, "seqtrace-%s.ndjson" % label)
     args = ["c17-seq", "-in", bfile, "-out", rfile, "-trace", tfile, "-bad", pfile, "-kill", mode,
-            "-log", os.path.join(ctx.work, "parent-%s.log" % label)]
-    if mode == "real":
-        args.append("-api")
+            "-log", os.path.join(ctx.work, "parent-%s.log" % label)] + list(extra)
+    return args
+
+
+class Background:
+    """a c17-seq run that goes on while the other stages run (long pauses cost wall clock, not CPU)"""
+
+    def __init__(self, ctx, behs, pool, mode, label, extra, timeout):
+        self.behs, self.mode, self.label = behs, mode, label
+        self.args = seq_args(ctx, behs, pool, mode, label, extra)
+        self.out = None
+        self.exc = None
+
+        def work():
+            try:
+                self.out = harness_pg(ctx, self.args, timeout)
+            except BaseException as e:    # StageTimeout included; re-raised by join()
+                self.exc = e
+        self.t = threading.Thread(target=work, daemon=True)
+        self.t.start()
+
+    def join(self, ctx):
+        self.t.join()
+        return run_sequences(ctx, self.behs, None, self.mode, self.label, done=(self.out, self.exc))
+
+
+def run_sequences(ctx, behs, pool, mode, label, extra=(), done=None):
+    bfile, rfile, tfile = seq_files(ctx, label)
     try:
-        rc, so, se = harness_pg(ctx, args, 900 if ctx.thorough else 60)
+        if done is not None:
+            if done[1] is not None:
+                raise done[1]
+            rc, so, se = done[0]
+        else:
+            args = seq_args(ctx, behs, pool, mode, label, extra)
+            if mode == "real" and label == "real":
+                args.append("-api")
+            rc, so, se = harness_pg(ctx, args, 900 if ctx.thorough else 60)
     except StageTimeout:
         # the driver writes every record unbuffered: what it saw before the timeout is on disk and is judged
         partial = []
@@ -314,8 +367,8 @@ def run_sequences(ctx, behs, pool, mode, label):
         if r in infra:
             ctx.notes.append("behaviour %d (%s): %s" % (r["id"], label, r.get("infra") or r["issues"][0]["d"]))
             continue
-        script = [(e["a"], e["c"], e["x"]) for e in b["beh"] if e["a"] in ("connect", "send", "sendbad", "recv", "drop", "exit", "eof", "refused")]
-        faulty = any(e["a"] in ("drop", "sendbad", "exit") for e in b["beh"][:-2]) or sum(1 for e in b["beh"] if e["a"] == "send") >= 2
+        script = [(e["a"], e["c"], e["x"]) for e in b["beh"] if e["a"] in ("connect", "send", "sendbad", "recv", "drop", "exit", "eof", "refused", "pause", "acceptfault")]
+        faulty = any(e["a"] in ("drop", "sendbad", "exit", "pause", "acceptfault") for e in b["beh"][:-2]) or sum(1 for e in b["beh"] if e["a"] == "send") >= 2
         ctx.case(key=("seq", mode, script), nontrivial=faulty)
         ctx.cov["traces_validated_against_impl"] += 1
         v = judge_seq(b, r)
@@ -434,6 +487,11 @@ def run_e2e(ctx, behs):
     rnd.shuffle(rest)
     picked += rest[:(10 if ctx.thorough else 1)]
     runs = [{"id": i, "kind": "scripted", "reqs": requests_of(b)} for i, b in enumerate(picked)]
+    # the same hand-over while an admin API client is in the middle of a request (health check, metrics scrape)
+    busy = [b for b in picked if requests_of(b) == ["admin", "drain", "term"]][:1]
+    for b in busy:
+        picked.append(b)
+        runs.append({"id": len(runs), "kind": "adminbusy", "reqs": requests_of(b)})
     runs.append({"id": len(runs), "kind": "realchild"})
     infile = os.path.join(ctx.work, "e2e-runs.ndjson")
     kit.write_ndjson(infile, runs)
@@ -451,7 +509,7 @@ def run_e2e(ctx, behs):
         ctx.case(key=("e2e", run["kind"], run.get("reqs")), nontrivial=True)
         ctx.cov["traces_validated_against_impl"] += 1
         bad = []
-        if run["kind"] == "scripted":
+        if run["kind"] in ("scripted", "adminbusy"):
             exp = e2e_expectation(picked[run["id"]])
             for i, x in enumerate(exp):
                 if i >= len(r["obs"]):
@@ -463,7 +521,12 @@ def run_e2e(ctx, behs):
                         "estAlive": not gone, "alive": not gone}
                 got = {k: o[k] for k in want}
                 if got != want:
-                    if x["req"] == "conf" and not o["alive"]:
+                    if run["kind"] == "adminbusy" and x["req"] == "admin" and not o["alive"]:
+                        bad.append(("e2e/admin-stop-with-open-connection-kills-old-process",
+                                    "the real samaritan process dies at the request to stop the admin API when an admin API client has a "
+                                    "request in flight (TCP connection to the admin port with a partial GET, then requests %s): %s; %s" % (
+                                        run["reqs"], o.get("exit"), r.get("crash", "")[:300])))
+                    elif x["req"] == "conf" and not o["alive"]:
                         bad.append(("e2e/local-conf-request-kills-old-process",
                                     "the real samaritan process dies when it gets the request to stop the local configuration store "
                                     "(requests %s): %s; %s" % (run["reqs"], o.get("exit"), r.get("crash", "")[:300])))
@@ -471,7 +534,9 @@ def run_e2e(ctx, behs):
                         bad.append(("e2e/step-effect-differs", "after request %d (%s) of %s the real process shows %s, the model says %s; %s" % (
                             i + 1, x["req"], run["reqs"], got, want, r.get("crash", "")[:200])))
                     break
-                if par["terminated"] and o.get("exit") != "exit 0":
+                # "signal: terminated": SIGTERM arrived before main had installed its handler (hand-over in the first
+                # milliseconds of the old process' life; seen only on an overloaded machine) - the process is gone either way
+                if par["terminated"] and o.get("exit") not in ("exit 0", "signal: terminated"):
                     bad.append(("e2e/step-effect-differs", "after terminate the old process ended with %s" % o.get("exit")))
         else:
             want = {"parentSteps": ["admin", "drain", "term"], "estDuring": True, "newServed": True, "parentExit": "exit 0", "childAlive": True}
@@ -486,6 +551,37 @@ def run_e2e(ctx, behs):
         ctx.violation(sig, "%s [%d run(s)]" % (lst[0]["what"], len(lst)), {"first": lst[0], "count": len(lst)})
     ctx.cov["e2e"] = {"runs": len(runs), "as_modelled": ok, "scripted": [r["reqs"] for r in runs if r["kind"] == "scripted"]}
     ctx.sample({"e2e_run": res[0]})
+
+
+# --------------------------------------------------------------------------- long pauses
+
+def child_script(b):
+    return [e["x"] if e["a"] == "send" else e["a"] for e in b["beh"] if e["a"] in ("send", "sendbad", "pause")]
+
+
+def start_long_pauses(ctx, rnd):
+    allp = [b for b in gen_behaviours(ctx, "Gen_Handover_pause.cfg", "pause")
+            if any(e["a"] == "pause" for e in b["beh"]) and not any(e["a"] == "sendbad" for e in b["beh"])]
+    realchild = [b for b in allp if child_script(b) == ["admin", "drain", "pause", "term"]]   # samaritan.go:110-132
+    first = [b for b in allp if child_script(b) == ["pause", "admin"]]
+    if not realchild or not first:
+        raise kit.Inconclusive("the pause stratum lacks the child-side sequence of samaritan.go")
+    rest = [b for b in allp if b not in realchild and b not in first]
+    rnd.shuffle(rest)
+    if ctx.thorough:
+        plan = [("pause11", "11s", realchild[:1] + first[:1] + rest[:2], 240),
+                ("pause30", "30s", realchild[:1] + rest[2:3], 240),
+                ("pause65", "65s", realchild[:1], 240)]
+    else:
+        plan = [("pause11", "11s", realchild[:1], 60)]
+    out = []
+    n = 0
+    for label, dur, behs, tmo in plan:
+        behs = [dict(b, id=1000000 + n + i) for i, b in enumerate(behs)]
+        n += len(behs)
+        out.append(Background(ctx, behs, [], "real", label, ["-pause", dur], tmo))
+    ctx.sample({"long_pause_behaviour": child_script(realchild[0]), "pauses": [p[1] for p in plan]})
+    return out
 
 
 # --------------------------------------------------------------------------- main
@@ -517,6 +613,11 @@ def run_stages(ctx):
     ]
     W = 8 if ctx.thorough else 4
 
+    # 0. time: a child that is silent on its open connection for longer than any plausible idle limit and then sends
+    # its next request (the real child sends terminate minutes after drain).  Real pauses cost wall clock, so these
+    # few sequences run in the background, in their own processes, while everything else goes on.
+    background = start_long_pauses(ctx, rnd)
+
     # 1. the format and the transcribed readMessage
     ctx.mc("hotrestart", "Frame", "MC_Frame.cfg", workers=4, timeout=180)
     r = ctx.mc("hotrestart", "Frame", "MC_Frame_pinned.cfg", workers=1, timeout=180, expect_violated=["ImplConforms"],
@@ -536,34 +637,53 @@ def run_stages(ctx):
     if ctx.thorough:
         r = ctx.mc("hotrestart", "Handover", "MC_Handover.cfg", workers=W, timeout=900)
         ctx.mc("hotrestart", "Handover", "MC_Handover_safety5.cfg", workers=W, timeout=900)
+        ctx.mc("hotrestart", "Handover", "MC_Handover_env.cfg", workers=W, timeout=900)
     else:
         r = ctx.mc("hotrestart", "Handover", "MC_Handover_quick.cfg", workers=W, timeout=300, coverage=True)
-        ctx.check_vacuity(r, "Handover")
+        ctx.check_vacuity(r, "Handover", ignore=("ChildPause", "ParentIdleClose", "AcceptFault"))
+        r = ctx.mc("hotrestart", "Handover", "MC_Handover_env_quick.cfg", workers=W, timeout=300, coverage=True)
+        ctx.check_vacuity(r, "Handover", ignore=("ParentIdleClose",))
+    # the defect variants must still yield their counterexamples (anti-vacuity)
     ctx.mc("hotrestart", "Handover", "MC_Handover_noeof.cfg", workers=1, timeout=180,
+           expect_violated=["NoStuckChild", "TEMPORAL"], count=False)
+    ctx.mc("hotrestart", "Handover", "MC_Handover_idlelimit.cfg", workers=1, timeout=180,
+           expect_violated=["AckMatches"], count=False)
+    ctx.mc("hotrestart", "Handover", "MC_Handover_acceptexit.cfg", workers=1, timeout=180,
            expect_violated=["NoStuckChild", "TEMPORAL"], count=False)
 
     # 4. behaviours on the real Restarter
     q = "" if ctx.thorough else "_quick"
     behs = gen_behaviours(ctx, "Gen_Handover_seq%s.cfg" % q, "seq") + gen_behaviours(ctx, "Gen_Handover_drop%s.cfg" % q, "drop")
     behs += gen_behaviours(ctx, "Gen_Handover_overlap%s.cfg" % q, "overlap")
+    # environment stratum: one transient accept failure at the moment a child connects (costs ~0.2 s each: a seeded choice)
+    fault = [b for b in gen_behaviours(ctx, "Gen_Handover_fault.cfg", "fault") if any(e["a"] == "acceptfault" for e in b["beh"])]
+    rnd.shuffle(fault)
+    behs += fault[:(200 if ctx.thorough else 12)]
     for i, b in enumerate(behs):
         b["id"] = i
     ctx.sample({"behaviour": [(e["a"], e["c"], e["x"]) for e in next(b for b in behs if b["src"] == "drop" and len(b["beh"]) > 14)["beh"]]})
     pool = bad_pool(vec)
-    _, traces, stopped = run_sequences(ctx, behs, pool, "real", "real")
+    _, traces, stopped = run_sequences(ctx, behs, pool, "real", "real", extra=["-burst", "6"])
     # exact count of terminate signals: the package's kill variable records instead of signalling
     withterm = [b for b in behs if any(e["a"] == "kill" for e in b["beh"])]
     traces2 = []
     if stopped:
-        ctx.notes.append("the run with the recording kill variable was skipped: the real-signal run stopped early on blocked later children")
+        ctx.notes.append("the run with the recording kill variable was skipped: the real-signal run stopped early on blocked children")
     else:
         _, traces2, _ = run_sequences(ctx, withterm, pool, "hook", "hook")
+
+    # the long-pause runs started at the beginning are over by now (or are waited for)
+    traces3 = []
+    for bg in background:
+        _, tr, _ = bg.join(ctx)
+        traces3 += tr
+    ctx.cov["long_pauses"] = [{"label": bg.label, "behaviours": len(bg.behs)} for bg in background]
 
     # 5. observed events against the specification
     # real SIGTERM is observed asynchronously, so for behaviours with a terminate the run with the recording kill
     # variable (exact order) is the one that is validated
     hasterm = set(b["id"] for b in withterm)
-    validate(ctx, [t for t in traces if t["id"] not in hasterm] + traces2, 260000 if ctx.thorough else 30000)
+    validate(ctx, traces3 + [t for t in traces if t["id"] not in hasterm] + traces2, 260000 if ctx.thorough else 30000)
 
     # 6. the steps on the real binary (real instance: admin API, listeners, process exit) and a real child
     run_e2e(ctx, behs)
